@@ -160,6 +160,52 @@ func identMain(args []string) int {
 		l.close()
 	}
 
+	// ---- re-dial: one pool dials twice; between the two dials another node took over the address
+	for fi := 0; fi < 6 && fi < len(listeners); fi++ {
+		for si := 0; si < 6 && si < len(listeners); si++ {
+			fp, sp := listeners[fi], listeners[si]
+			l1, err1 := newIdentListener(filepath.Join(base, fmt.Sprintf("r%d_%da", fi, si)), fp.cid, fp.nid)
+			l2, err2 := newIdentListener(filepath.Join(base, fmt.Sprintf("r%d_%db", fi, si)), sp.cid, sp.nid)
+			if err1 != nil || err2 != nil {
+				findings = append(findings, "C20|listener-setup|re-dial listeners")
+				continue
+			}
+			cur := l1
+			pool := &connPool{src: 9, cid: fp.cid, nid: fp.nid, max: 1,
+				resolver: &resolver{addrs: map[uint64]string{fp.nid: "anywhere:1"}, logger: nopLogger{}, alerts: nopAlerts{}},
+				dialFn: func(network, address string, timeout time.Duration) (net.Conn, error) {
+					c1, c2 := net.Pipe()
+					l := cur
+					go func() { _ = l.s.handleConn(c2); _ = c2.Close() }()
+					return c1, nil
+				}}
+			for round, l := range []*identListener{l1, l2} {
+				cur = l
+				lp := fp
+				if round == 1 {
+					lp = sp
+				}
+				before := atomic.LoadInt64(&l.processed)
+				resp := &voteResp{}
+				err := pool.doRPC(&voteReq{req: req{0, 9}}, resp, time.Now().Add(3*time.Second))
+				accepted := err == nil
+				time.Sleep(2 * time.Millisecond)
+				got := atomic.LoadInt64(&l.processed) - before
+				pool.closeAll() // the connection is lost; the next request dials again
+				id++
+				desc[strconv.Itoa(id)] = fmt.Sprintf("dial #%d of one pool: dialer (%d,9) -> target %d, listener now (%d,%d)", round+1, fp.cid, fp.nid, lp.cid, lp.nid)
+				ok := fp.cid == lp.cid && fp.nid == lp.nid
+				dist[fmt.Sprintf("redial%d/match=%v", round+1, ok)]++
+				cases = append(cases, fmt.Sprintf("IConn %d (mkId %d %d) %d (mkId %d %d) %s %d", id, fp.cid, uint64(9), fp.nid, lp.cid, lp.nid, coqBool(accepted), got))
+				if !ok && got > 0 {
+					findings = append(findings, fmt.Sprintf("C20|foreign-request-processed|%s: %d requests reached the handlers", desc[strconv.Itoa(id)], got))
+				}
+			}
+			l1.close()
+			l2.close()
+		}
+	}
+
 	// ---- SetIdentity
 	for i := 0; i < 12+n; i++ {
 		dir := filepath.Join(base, fmt.Sprintf("s%d", i))
